@@ -172,6 +172,7 @@ where
     /// Attempt to read the next log row for backward iteration.
     async fn read_row_next_back(&mut self) -> Result<T> {
         let row_pos = self.backward.unwrap();
+        let header_offset = self.header_offset;
 
         let mut reader =
             BinaryReader::new(&mut self.read_stream, encoding_options());
@@ -180,9 +181,21 @@ where
         reader.seek(SeekFrom::Start(row_pos - 4)).await?;
         let row_len = reader.read_u32().await?;
 
-        // Position of the beginning of the row
-        // FIXME: handle panic on overflow when file length is too short
-        let row_start = row_pos - (row_len as u64 + 8);
+        // Position of the beginning of the row which must
+        // not be before the start of the content
+        let row_start = row_pos
+            .checked_sub(row_len as u64 + 8)
+            .filter(|row_start| *row_start >= header_offset)
+            .ok_or_else(|| {
+                std::io::Error::new(
+                    std::io::ErrorKind::InvalidData,
+                    format!(
+                        "row length {} at offset {} is out of bounds",
+                        row_len,
+                        row_pos - 4
+                    ),
+                )
+            })?;
         let row_end = row_start + (row_len as u64 + 8);
 
         // Seek to the beginning of the row after the initial
